@@ -343,6 +343,57 @@ pub fn run(prop: &str, tier: &str, replay: Option<&str>) -> i32 {
             rep.add(sec);
         }
     }
+    // every way a signing key can come into being: each fixture key (every size and input form) through each loading
+    // entry point and each requested algorithm; whatever loads signs one certificate, one CSR and one CRL
+    #[cfg(feature = "crypto")]
+    {
+        use super::c11::{load, ENTRIES};
+        let mut cases: Vec<(usize, usize, Option<Alg>)> = Vec::new();
+        for (zi, z) in zoo.iter().enumerate() {
+            if !thorough && matches!(z.kind, KeyKind::Rsa8192) {
+                continue;
+            }
+            for (ei, e) in ENTRIES.iter().enumerate() {
+                if e.takes_alg() {
+                    for a in backend_algs().into_iter().filter(|a| z.kind.fits(*a)) {
+                        if !thorough && z.kind.is_slow() && a == Alg::RsaSha512 {
+                            continue;
+                        }
+                        cases.push((zi, ei, Some(a)));
+                    }
+                } else {
+                    cases.push((zi, ei, None));
+                }
+            }
+        }
+        let sec = Section::new("keys/entry-points", "every fixture key (kind, size 1024..8192 bits, PKCS#8 / SEC1 / PKCS#1) x every loading entry point x every fitting requested algorithm: a key that loads signs a certificate, a CSR and a CRL; signature, algorithm identifiers and the key's own algorithm label are judged as everywhere else").with_deadline(if thorough { 900 } else { 40 });
+        run::sweep_cases(&sec, &cases, &|c| format!("{} via {:?} as {:?}", zoo[c.0].name, ENTRIES[c.1], c.2.map(|a| a.name())), &|c| {
+            let mut out = Outcome::default();
+            let z = &zoo[c.0];
+            let Ok(Ok(kp)) = load(ENTRIES[c.1], &z.der, z.format, c.2) else { return out };
+            let Some(alg) = alg_of(kp.algorithm()) else {
+                out.findings.push(Finding::new("ALG-NOT-REGISTERED", "KeyPair::algorithm", format!("{:?}", kp.algorithm())));
+                return out;
+            };
+            if !z.kind.fits(alg) {
+                out.findings.push(Finding::new("ALG-NOT-REGISTERED", "KeyPair::algorithm", format!("a {:?} key labelled {}", z.kind, alg.name())));
+                return out;
+            }
+            let k = RealKey { label: format!("{} via {:?}", z.name, ENTRIES[c.1]), kp, pubk: z.key_pub(alg), log: None };
+            let st = CertState::default();
+            out = judge_cert(&st, &k, None, &k);
+            let o2 = judge_csr(&super::c07::CsrCase { st: CertState::default(), attrs: vec![] }, &k, None);
+            out.findings.extend(o2.findings);
+            let issuer = issuer_for(&k, Some(z));
+            let iss_ref = IssuerRealRef { cert: &issuer.cert, spec: &issuer.spec };
+            let o3 = judge_crl_with(&base_crl_state(), &iss_ref, &k);
+            out.findings.extend(o3.findings);
+            out.transitions += o2.transitions + o3.transitions;
+            out.findings.dedup_by(|a, b| a.sig() == b.sig());
+            out
+        });
+        rep.add(sec);
+    }
     fault_histories(&mut rep, &zoo);
     run::join_children(&mut rep, children);
     run::finish(rep)
